@@ -861,6 +861,10 @@ def run(chk, prog):
             from . import c01_budget
             n["R10"] = c01_budget.rule_R10(chk, drv)
     n["R8"] += rule_R8(chk, prog.library())
+    # R11: every traversal task carries the lock of the subgrid whose index it stores (c01_lock.py)
+    from . import c01_lock
+    n["R11"] = c01_lock.rule_R11(chk, prog.library())
+    chk.floor("R11", n["R11"], 6)
     # R9 (the per-source split adds up to the request) was built and withdrawn: it matched the shape of the constructor
     # and fired on a behaviour-preserving rewrite (refactorings/g31/patch_06); see DESIGN.md section 8.
     chk.extra["obligations_per_rule"] = n
